@@ -202,6 +202,11 @@ def run(check):
       r_lag.violate('lag filter missing', 'carbon.cache:TimeSortedStrategy', None, 'no strategy filters its snapshot by '
                     'MIN_TIMESTAMP_LAG', construct='MIN_TIMESTAMP_LAG filter')
 
+  # ------------------------------------------------------------------ side tables (shared with C02)
+  from .c02 import rule_side_tables
+  r_st = check.rule('R-C17-side-tables', 1, rule_side_tables.__doc__)
+  rule_side_tables(check, cm, r_st)
+
   # ------------------------------------------------------------------ selection
   r_sel = check.rule('R-C17-selection', 6, 'every strategy name selects its own DrainStrategy subclass')
   from ..paths import PathExec
@@ -282,6 +287,24 @@ def run(check):
         r_bk.ok('%s: self.%s updated on every store path that adds a metric' % (sc.name, a), so.loc())
 
 
+def _false_at_zero_lag(test, lag_names):
+  """the test is false when MIN_TIMESTAMP_LAG is 0: truthiness of the lag, `lag > 0`, `lag != 0` (possibly one conjunct)"""
+  def is_lag(e):
+    return 'MIN_TIMESTAMP_LAG' in unparse(e) and isinstance(e, (ast.Attribute, ast.Subscript)) or \
+      (isinstance(e, ast.Name) and e.id in lag_names)
+  if isinstance(test, ast.BoolOp) and isinstance(test.op, ast.And):
+    return any(_false_at_zero_lag(v, lag_names) for v in test.values)
+  if is_lag(test):
+    return True
+  if isinstance(test, ast.Compare) and len(test.ops) == 1 and isinstance(test.comparators[0], ast.Constant) and \
+     test.comparators[0].value == 0 and is_lag(test.left) and isinstance(test.ops[0], (ast.Gt, ast.NotEq)):
+    return True
+  if isinstance(test, ast.Compare) and len(test.ops) == 1 and isinstance(test.left, ast.Constant) and test.left.value == 0 and \
+     is_lag(test.comparators[0]) and isinstance(test.ops[0], (ast.Lt, ast.NotEq)):
+    return True
+  return False
+
+
 def lag_filter_guard(gen):
   """nodes of a generator that filter by MIN_TIMESTAMP_LAG without being under `if settings.MIN_TIMESTAMP_LAG`"""
   out = []
@@ -301,7 +324,7 @@ def lag_filter_guard(gen):
     guarded = False
     p = getattr(n, '_parent', None)
     while p is not None and p is not gen.node:
-      if isinstance(p, ast.If) and 'MIN_TIMESTAMP_LAG' in unparse(p.test) and any(x is n for s_ in p.body for x in ast.walk(s_)):
+      if isinstance(p, ast.If) and any(x is n for s_ in p.body for x in ast.walk(s_)) and _false_at_zero_lag(p.test, lag_names):
         guarded = True
       p = getattr(p, '_parent', None)
     if not guarded:
